@@ -140,6 +140,9 @@ class Serial(Harness):
                 g2 = export.from_json(export.to_json(g))
             else:
                 FILES.clear()
+                # other cascades have been built and extended in this process before
+                acc = ew.Cascade()
+                acc += ew.Cascade(Graph([Node("unrelated", payload="u")]))
                 ew.Cascade(g).serialise("f.dill")
                 g2 = ew.Cascade.from_serialised("f.dill")._graph
         except Exception as e:
